@@ -200,7 +200,7 @@ def _lookback(E: Engine, rep: Report) -> None:
     for f, label in ((gd, "get_duration"), (fad, "_find_add_delay")):
         Sf = S(E, f)
         for l in Sf.log:
-            if l.kind == "test" and l.fn == f.short:
+            if l.kind == "test":  # tests of inlined private helpers included
                 facs.setdefault(label, set()).update(_rise_coeffs(l.value))
     rep.check(facs.get("get_duration") == {2}, "GUARD", "_ChannelSchedule.get_duration|lookback=2*rise_time", "the backwards scan for a pending fall time stops only after 2*rise_time of idle time (the longest possible fall time)",
               f"the at-rest look-back threshold is {sorted(facs.get('get_duration', []))} x rise_time: a pulse whose fall time (up to 2*rise_time) is still pending would be missed behind short delays", E.where(gd))
